@@ -1,5 +1,5 @@
 CONSTANTS
-  NK = 1300
+  NK = 1500
   NV = 3
   MaxVer = 8
   MaxLen = 36
